@@ -4,6 +4,7 @@ import callgraph
 import core
 from rules import panics
 from rules.common import single_defs, site, call_blocks, direct_cmp_switches, resolve_value
+from rules.common import ok_exit_blocks as ok_exits
 from core import guard_switches, must_pass, fmt_path, has_origin
 
 EXPLANATION = ("Decides structural clauses of C04, not panic freedom: every panic-capable site of the library (explicit panics, "
@@ -52,6 +53,59 @@ def focus(ctx, P):
                  'the %s stream decryptor (which slices key[..key_size]) is built only after session_key.len() == sym_alg.key_size() was checked on every path' % cont)
         ctx.floor(P + ':focus:aead-key-length:floor', 'AEAD decryptor construction sites', n, 2)
 
+    # the same key is sliced when the decryptor is built directly (public constructor): the GnuPG variant uses the session key itself
+    # as the AEAD key (no HKDF that fixes its size), so the constructor has to compare its length with the cipher's key size
+    b = ctx.body('crypto::aead::decryptor::StreamDecryptor::<R>::new_gnupg')
+    if b is not None:
+        rdom(ctx, P + ':focus:gnupg-constructor-checks-key-length', b, call_blocks(b, r'aead_setup_gnupg$'), [r'call:.*SymmetricKeyAlgorithm::key_size$', r'call:.*len$|op:PtrMetadata'],
+             'StreamDecryptor::new_gnupg compares key.len() with sym_alg.key_size() before the key is used as the AEAD key (which is sliced [..key_size])')
+    # SecretKey::to_mpi recomputes u = p^-1 mod q and `expect`s it: the constructor from parsed material has to establish that it exists
+    b = ctx.body('crypto::rsa::SecretKey::try_from_mpi')
+    if b is not None:
+        rdom(ctx, P + ':focus:rsa-secret-primes-invertible', b, ok_exits(b), [r'call:.*ModInverse::mod_inverse$|call:.*mod_inverse$'],
+             'crypto::rsa::SecretKey::try_from_mpi accepts parsed p, q only after p^-1 mod q was found to exist (serialisation unwraps it)')
+    # `overflow the stack`: reading recurses through every compression / encryption layer (dynamic dispatch through the nested
+    # readers, invisible to the call-graph SCCs of R-rec), so opening a layer must be bounded: the single function through which
+    # from_compressed / from_edata build the next message compares the reader's nesting depth with a constant and rejects
+    cands = [p for p in ctx.f.bodies if p.endswith('::internal_from_bytes')]
+    b = ctx.body(cands[0]) if cands else ctx.body("composed::message::types::Message::<'a>::internal_from_bytes")
+    if b is not None:
+        sinks = call_blocks(b, r'PacketParser::<.*>::new$|PacketParser::new$')
+        gs = [g for g, op, _ in direct_cmp_switches(b, lambda k, v: k == 'call' and re.search(r'MessageReader.*::\w*depth\w*$', v['f'].get('fn', '')) is not None, lambda c: isinstance(c, int) and 1 <= c <= 1024)]
+        ok, wit = must_pass(b, sinks, gs) if (sinks and gs) else (False, None)
+        users = sorted(p for p, r in ctx.f.bodies.items() if ctx.wrap(r).calls(re.escape(b.path) + '$'))
+        ctx.check(P + ':focus:nesting-depth-bounded', 'R-dom', 'a compression / encryption layer is opened only after the nesting depth of the reader was compared with a constant bound (reading recurses through all layers)',
+                  ok and any('from_compressed' in u for u in users) and any('from_edata' in u for u in users), function=b.path, guards=[site(b, g) for g in gs], users=users,
+                  witness=fmt_path(b, wit) if wit else None)
+    # a public Result-returning function does not `expect` / `unwrap` one of its own Option parameters: None is the caller's input
+    n = 0
+    for p, r in sorted(ctx.f.bodies.items()):
+        if r.get('derived') or '::tests::' in p or r['kind'] == 'Closure' or r.get('vis') != 'pub' or not r.get('reachable'):
+            continue
+        if not re.match(r'(std::result::Result|std::io::Result)<', r['locals'][0]['ty']):
+            continue
+        opts = [k for k in range(1, r['nargs'] + 1) if r['locals'][k]['ty'].startswith('std::option::Option<')]
+        if not opts:
+            continue
+        b = ctx.wrap(r)
+        n += 1
+        defs = single_defs(b)
+        bad = []
+        for i, t in b.calls(r'Option::<T>::(expect|unwrap)$'):
+            o = t['args'][0]
+            for _ in range(4):
+                if 'l' not in o or o['pr'] or o['l'] <= r['nargs']:
+                    break
+                d = defs.get(o['l'])
+                if d is None or d[1].get('k') == 'call' or d[1]['r']['k'] != 'use':
+                    break
+                o = d[1]['r']['o'][0]
+            if 'l' in o and not o['pr'] and o['l'] in opts:
+                bad.append(site(b, i))
+        ctx.check('%s:focus:no-expect-on-option-parameter:%s' % (P, p), 'R-panic', '%s returns an error for a None argument instead of unwrapping it' % p.split('::')[-1],
+                  not bad, function=p, missing=bad or None)
+    ctx.floor(P + ':focus:option-parameter:floor', 'public Result-returning functions with an Option parameter', n, 5)
+
 
 def run(ctx):
     P = 'C04'
@@ -63,7 +117,10 @@ def run(ctx):
     from rules import c10
     c10.checksum_token_bounded(ctx, P)
     from rules import stream
+    from rules import casts
+    casts.narrow_sums(ctx, P)
     stream.eof_kind_protocol(ctx, P)
+    stream.eof_helper_not_leaked(ctx, P)
 
 
 def r_panic(ctx, P, only=None, floors=(1800, 1200, 150)):
@@ -339,6 +396,52 @@ def poisoned_state_returns_error(ctx, P):
             ctx.violation('%s:poison:returns-error:%s:via:%s#%d' % (P, p, g.split('::')[-1], k), 'R-sib',
                           'a Result-returning function does not call, on a possibly poisoned state, a helper that panics on the placeholder %s::%s' % (a, v),
                           function=p, site=site(b, i), callee=g, missing='%s panics on %s::%s and is called before the placeholder is checked' % (g.split('::')[-1], a, v))
+    # public entry points: a `pub` Result-returning method can be called in any state, also after an earlier call failed.  It must
+    # not reach (through helpers that cannot report an error) a panic on the placeholder of its own object.
+    trans = dict((p, (a, v, [p])) for p, (a, v) in panics_on.items())
+    changed = True
+    while changed:
+        changed = False
+        for p, r in ctx.f.bodies.items():
+            if p in trans or r.get('derived') or '::tests::' in p or r['kind'] == 'Closure' or re.match(RES, r['locals'][0]['ty']):
+                continue
+            b = core.B(r)
+            for i, t in b.calls():
+                g = t['f'].get('res') if t['f'].get('res') in trans else t['f'].get('fn')
+                if g in trans and t['args'] and has_origin(b.operand_origins(t['args'][0]), r'param:1$'):
+                    trans[p] = (trans[g][0], trans[g][1], trans[g][2] + [p])
+                    changed = True
+                    break
+    npub = 0
+    for p, r in sorted(ctx.f.bodies.items()):
+        if r.get('derived') or '::tests::' in p or r['kind'] == 'Closure' or not re.match(RES, r['locals'][0]['ty']):
+            continue
+        if r.get('vis') != 'pub' or not r.get('reachable'):
+            continue
+        b = core.B(r)
+        dom = None
+        k = 0
+        for i, t in b.calls():
+            g = t['f'].get('res') if t['f'].get('res') in trans else t['f'].get('fn')
+            if g not in trans or g == p or re.match(RES, ctx.f.bodies[g]['locals'][0]['ty']):
+                continue
+            if not t['args'] or not has_origin(b.operand_origins(t['args'][0]), r'param:1$'):
+                continue
+            a, v, chain = trans[g]
+            dom = dom or b.dominators()
+            if any(aa == a and v not in vs for aa, vs in arm_context(b, i, dom)):
+                continue
+            checked = [j for j, tt in b.calls() if (tt['f'].get('res') in reports or tt['f'].get('fn') in reports) and tt['args'] and has_origin(b.operand_origins(tt['args'][0]), r'param:1$')]
+            if any(j in dom.get(i, ()) for j in checked):
+                continue
+            k += 1
+            npub += 1
+            ctx.functions.add(p)
+            ctx.violation('%s:poison:pub-entry:%s:via:%s#%d' % (P, p, g.split('::')[-1], k), 'R-sib',
+                          'a public Result-returning method does not reach a panic on the placeholder %s::%s of its own object through helpers that cannot report an error' % (a, v),
+                          function=p, site=site(b, i), chain=[x.split('::')[-1] for x in reversed(chain)],
+                          missing='%s -> %s panics when the object already failed; the caller gets a panic instead of Err' % (p.split('::')[-1], ' -> '.join(x.split('::')[-1] for x in reversed(chain))))
+    ctx.extra = dict(getattr(ctx, 'extra', {}), poison_panicky_helpers=len(trans))
     # the functions that already handle the placeholder with an error are the sibling reference
     good = 0
     for p, r in sorted(ctx.f.bodies.items()):
